@@ -316,10 +316,20 @@ func (e *xmlEncoder) encodeMap(encoder *xml.Encoder, node *CandidateNode, start 
 			if err != nil {
 				return err
 			}
-			var charData xml.CharData = []byte(value.Value)
-			err = encoder.EncodeToken(charData)
-			if err != nil {
-				return err
+			// mixed content is decoded into a sequence of texts: write every one of them
+			texts := []*CandidateNode{value}
+			if value.Kind == SequenceNode {
+				texts = value.Content
+			}
+			for _, text := range texts {
+				if text.Kind != ScalarNode {
+					return fmt.Errorf("cannot encode %v as the text of an element, only scalars", text.Tag)
+				}
+				var charData xml.CharData = []byte(text.Value)
+				err = encoder.EncodeToken(charData)
+				if err != nil {
+					return err
+				}
 			}
 			err = e.encodeComment(encoder, footComment(value))
 			if err != nil {
